@@ -10,7 +10,13 @@ from props.printers_lib import mstd, mjson, as_bytes
 
 NEED_RG = True
 MANIFEST = dict(
-    text="Coq theorems about executable models of the standard and JSON printers: the prelude of a record is the "
+    text="Coq theorems about executable models of the standard and JSON printers. ROUND TRIPS: standard_line_roundtrip — a "
+         "reader knowing only the configuration gets back from a printed record the event's own path, line number, "
+         "column, byte offset and terminated bytes (guard: separator non-empty and not starting with a digit, the "
+         "path-ending byte not in the path, numbers < 2^64; line-oriented records; -o / --vimgrep records and "
+         "multi-line blocks have layout theorems read by the same parser); json_roundtrip — the output of a search is "
+         "begin, the messages of the delivered events in order, end, and decoding each message (Data as text or base64) "
+         "gives back the event's bytes, line number, offset and submatch slices. Also: the prelude of a record is the "
          "event's own path / line number / column / byte offset in fixed order with the configured separators, the "
          "text is the event's bytes with the terminator added iff missing (fast, slow and multi-line paths; "
          "write_colored_matches writes exactly the line); DecimalFormatter round-trips for every u64; base64_standard "
@@ -21,9 +27,8 @@ MANIFEST = dict(
          "input bytes (line number, offset, column via an independent regex engine, text), JSON re-assembled.",
     note="trusted: Coq kernel, extraction, OCaml driver, Rust harness, Python re as independent matcher for the column "
          "oracle (restricted pattern pool); utf8_valid is differentially tested against std::str::from_utf8 and "
-         "Python's decoder, not proved against a Unicode specification; a full parse_line round trip is not proved "
-         "(standard_record_shape gives the record's exact byte layout; digits/separator disambiguation is tested); "
-         "only-matching / per-match multi-line paths are modelled and corresponded, no theorem; that the searcher's "
+         "Python's decoder, not proved against a Unicode specification; only-matching / per-match MULTI-LINE paths "
+         "are modelled and corresponded, no theorem; JSON round trip is for rg's configuration without -m; that the searcher's "
          "events are the input's lines is C03's theorem (checked here by the oracle)",
     technique="Coq proof over executable models + extracted-model/implementation correspondence + input re-location oracle",
     design="§7 C09")
@@ -41,8 +46,8 @@ def gen_file(rng, crlf):
     lines = []
     for _ in range(rng.randint(1, 7)):
         k = rng.random()
-        if k < 0.06:
-            ln = bytes(rng.choice(ALPH) for _ in range(rng.randint(150, 400)))     # long line
+        if k < 0.04:
+            ln = bytes(rng.choice(ALPH) for _ in range(rng.randint(130, 220)))     # long line
         else:
             ln = bytes(rng.choice(ALPH) for _ in range(rng.choice([0, 1, 2, 3, 5, 8])))
         if rng.random() < 0.15:
@@ -434,7 +439,7 @@ def run(ctx):
                        "--column; --vimgrep; --json; random heading/--null/separators/-o; --json always-begin-end with -m); "
                        "non-trivial = some configuration printed something; distinct by case text")
     run_batch(ctx, corpus(), cli_every=1)
-    n = ctx.count(1200)
+    n = ctx.count(800)
     run_batch(ctx, [gen_case(rng) for _ in range(n)], cli_every=max(1, n // ctx.count(80)))
     # Data::from_bytes / base64 / DecimalFormatter: model = code = independent oracle
     from props import C10
